@@ -107,14 +107,8 @@ func classifySink(n *Node) *sinkInfo {
 
 func inSubmitter(n *Node) bool {
 	for c := n.Ctx; c != nil; c = c.Parent {
-		if c.Fn != nil {
-			name := c.Fn.String()
-			if o := c.Fn.Origin(); o != nil {
-				name = o.String()
-			}
-			if genericName(name) == blockF("submitToDA[_]") || genericName(name) == blockF("submitToDA") {
-				return true
-			}
+		if c.Fn != nil && isSubmitterFn(c.Fn) {
+			return true
 		}
 	}
 	return false
